@@ -28,6 +28,7 @@ NAMES = {
     "non-utf8": ["bad\xff", "caf\xe9.txt"],
     "spaces": ["my file", "tab\tname"],
     "tilde": ["x~", "~y~", "n.~z~"],
+    "hardlinked-pair": ["report.txt", "latest.txt"],      # two names of one file in the destination, only the first has a backup
     "backup-named-sibling": ["f", "f.~1~"],      # the second name is recomputed per case: the number the backup of the first would get
     "long": ["L" * 250, "M" * 251, "N" * 252, "O" * 254, "P" * 255],
 }
@@ -52,7 +53,7 @@ def gen_cases(tier, seed):
     for i in range(n):
         driver = ["parfile", "parblock"][i % 2]
         ncls = r.choice(sorted(NAMES))
-        names = list(NAMES[ncls]) if ncls in ("prefix-pair",) else [r.choice(NAMES[ncls])]
+        names = list(NAMES[ncls]) if ncls in ("prefix-pair", "hardlinked-pair") else [r.choice(NAMES[ncls])]
         dircopy = ncls == "non-utf8" or r.random() < 0.5
         bset = r.choice(sorted(BSETS))
         if ncls == "backup-named-sibling":
@@ -69,7 +70,13 @@ def gen_cases(tier, seed):
             pre.append({"p": base + "/a", "k": "f", "size": 11, "seed": r.randrange(1, 1 << 30), "segs": None})
             if r.random() < 0.5:
                 pre.append({"p": base + "/a.~2~", "k": "f", "size": 12, "seed": r.randrange(1, 1 << 30), "segs": None})
-        for nm in names:
+        if ncls == "hardlinked-pair":
+            bset = r.choice(["one", "gap", "none"])
+            pre += [{"p": base + "/" + names[0], "k": "f", "size": 3000, "seed": r.randrange(1, 1 << 30), "segs": None},
+                    {"p": base + "/" + names[1], "k": "hard", "target": base + "/" + names[0]}]
+            pre += [{"p": "%s/%s.~%d~" % (base, names[0], k), "k": "f", "size": 7, "seed": r.randrange(1, 1 << 30), "segs": None} for k in BSETS[bset]]
+            seeded = {names[0]: BSETS[bset], names[1]: []}
+        for nm in ([] if ncls == "hardlinked-pair" else names):
             if r.random() < 0.7 or (ncls == "backup-named-sibling" and nm == names[0]):
                 pre.append({"p": base + "/" + nm, "k": "f", "size": r.choice([0, 5, 3000]), "seed": r.randrange(1, 1 << 30), "segs": None})
             nums = BSETS[bset] if (nm == names[0] or (r.random() < 0.5 and ncls != "backup-named-sibling")) else []
@@ -82,6 +89,13 @@ def gen_cases(tier, seed):
         for s in range(r.randint(2, 8 if tier == "thorough" else 5)):
             steps.append({"mode": r.choice(["none", "auto", "numbered", "numbered"]),
                           "files": {nm: {"size": r.choice([0, 1, 100, 70000]), "seed": r.randrange(1, 1 << 30)} for nm in names if r.random() < 0.85 or nm == names[0]}})
+        if ncls == "hardlinked-pair":
+            # both names are overwritten by every run and a backup mode is always on: what an in-place overwrite of one name does
+            # to the other names of the same file is cp's long-standing behaviour and not what this class is about
+            for st_ in steps:
+                st_["mode"] = r.choice(["auto", "auto", "numbered"])
+                for nm in names:
+                    st_["files"].setdefault(nm, {"size": r.choice([0, 1, 100, 70000]), "seed": r.randrange(1, 1 << 30)})
         # how a single-file destination is spelled: also without any directory part (cwd is the destination's directory),
         # through a symlinked directory, absolute; and the destination name may at first be a symlink to a file elsewhere
         spell = r.choice(["plain", "plain", "dot", "cwd", "cwd", "abs", "dotdot", "dirlink"]) if not dircopy and len(names) == 1 else "plain"
